@@ -796,7 +796,7 @@ var c09RSAMuts = []string{"none", "n+2", "d+1", "d-zero", "dp+1", "dq+1", "qi+1"
 var c09OKPMuts = []string{"none", "x-short", "x-long", "x-empty", "d-short", "d-long", "d-empty", "d-flip", "x-flip", "crv-swap", "crv-unknown",
 	"crv-missing", "x-missing", "x-number", "d-null", "x-notb64"}
 var c09CommonMuts = []string{"x5c-other-key", "x5c-garbage-b64", "x5c-not-cert", "x5c-number", "x5c-url-b64", "x5t-flip", "x5t-prefix", "x5t-empty",
-	"x5t256-flip", "x5t256-prefix", "x5t-only", "x5t-with-matching-x5c", "x5u-bad", "key_ops-number", "key_ops-mixed", "use-number", "alg-null", "kid-number"}
+	"x5t256-flip", "x5t256-prefix", "x5t-only", "x5t-with-matching-x5c", "x5u-bad", "key_ops-number", "key_ops-mixed", "use-number", "alg-null", "kid-number", "kty-cross-family"}
 
 // certificate chains of 2-3 certificates: chain-<shape>-<thumbprints>; thumbprints: absent, t0 (digests of
 // x5c[0] — correct), t1 (digests of x5c[1]), garbage, mixed (x5t of cert 0, x5t#S256 of cert 1), mixed2
@@ -1116,6 +1116,19 @@ func c09MutateJWK(r *vf.Rand, m c08Mat, mut string, serial int64) map[string]any
 		j["kty"] = "EC2"
 	case "kty-number":
 		j["kty"] = json.Number("2")
+	case "kty-cross-family":
+		// kty and crv from different families with otherwise valid material: {"kty":"EC","crv":"Ed25519",…},
+		// {"kty":"OKP","crv":"P-256",…} — the parts of such a key disagree (RFC 7518 §6.2 / RFC 8037 §2)
+		switch j["kty"] {
+		case "EC":
+			j["kty"] = "OKP"
+		case "OKP":
+			j["kty"] = "EC"
+		case "RSA":
+			j["kty"] = "oct"
+		default:
+			j["kty"] = "RSA"
+		}
 	}
 	return j
 }
